@@ -14,6 +14,11 @@ pub const VERSION: &str = env!("CARGO_PKG_VERSION");
 #[cfg(all(not(target_arch = "wasm32"), not(test)))]
 extern crate libc_print;
 
+#[cfg(smartcalc_verif)]
+extern crate std;
+#[cfg(smartcalc_verif)]
+pub mod verif;
+
 pub(crate) mod types;
 pub(crate) mod tokinizer;
 pub(crate) mod syntax;
